@@ -94,6 +94,27 @@ pub struct Run<'a> {
 
 static SCRATCH_N: AtomicU64 = AtomicU64::new(0);
 
+/// File names and arguments are handled as Rust strings throughout the harness. To put a name that is
+/// NOT valid UTF-8 on the command line (legal on Unix), every U+FFFD in a name or argument is materialised
+/// as the single byte 0xE9 when it is handed to the operating system. xt prints such a name lossily,
+/// i.e. with U+FFFD again, so messages still compare.
+pub fn os_name(s: &str) -> std::ffi::OsString {
+    use std::os::unix::ffi::OsStringExt;
+    let b = s.as_bytes();
+    let mut out = Vec::with_capacity(b.len());
+    let mut i = 0;
+    while i < b.len() {
+        if b[i..].starts_with("\u{fffd}".as_bytes()) {
+            out.push(0xe9);
+            i += 3;
+        } else {
+            out.push(b[i]);
+            i += 1;
+        }
+    }
+    std::ffi::OsString::from_vec(out)
+}
+
 /// A fresh scratch directory under $XTV_OUT/scratch (removed by Drop).
 pub struct Scratch(pub PathBuf);
 
@@ -109,13 +130,14 @@ impl Scratch {
         &self.0
     }
     pub fn file(&self, name: &str, content: &[u8]) -> PathBuf {
-        let p = self.0.join(name);
+        let p = self.0.join(os_name(name));
         std::fs::write(&p, content).expect("write scratch file");
         p
     }
     pub fn fifo(&self, name: &str) -> PathBuf {
-        let p = self.0.join(name);
-        let c = CString::new(p.to_str().unwrap()).unwrap();
+        use std::os::unix::ffi::OsStrExt;
+        let p = self.0.join(os_name(name));
+        let c = CString::new(p.as_os_str().as_bytes()).unwrap();
         unsafe {
             libc::mkfifo(c.as_ptr(), 0o600);
         }
@@ -133,7 +155,7 @@ impl Drop for Scratch {
 pub fn feed_fifo(path: PathBuf, content: Vec<u8>) -> std::thread::JoinHandle<()> {
     std::thread::spawn(move || {
         // open non-blocking in a retry loop so that a reader that never comes cannot hang us forever
-        let c = CString::new(path.to_str().unwrap()).unwrap();
+        let c = { use std::os::unix::ffi::OsStrExt; CString::new(path.as_os_str().as_bytes()).unwrap() };
         let mut fd = -1;
         for _ in 0..2000 {
             fd = unsafe { libc::open(c.as_ptr(), libc::O_WRONLY | libc::O_NONBLOCK) };
@@ -157,7 +179,7 @@ pub fn feed_fifo(path: PathBuf, content: Vec<u8>) -> std::thread::JoinHandle<()>
 /// Like `feed_fifo`, but the content arrives in bursts with a pause after each.
 pub fn feed_fifo_bursts(path: PathBuf, bursts: Vec<Vec<u8>>, pause_ms: u64) -> std::thread::JoinHandle<()> {
     std::thread::spawn(move || {
-        let c = CString::new(path.to_str().unwrap()).unwrap();
+        let c = { use std::os::unix::ffi::OsStrExt; CString::new(path.as_os_str().as_bytes()).unwrap() };
         let mut fd = -1;
         for _ in 0..2000 {
             fd = unsafe { libc::open(c.as_ptr(), libc::O_WRONLY | libc::O_NONBLOCK) };
@@ -238,7 +260,7 @@ pub fn run_exclusive(r: Run) -> ProcOut {
 
 fn run_inner(r: Run) -> ProcOut {
     let mut cmd = Command::new(r.bin);
-    cmd.args(&r.argv).current_dir(r.cwd).stderr(Stdio::piped());
+    cmd.args(r.argv.iter().map(|a| os_name(a))).current_dir(r.cwd).stderr(Stdio::piped());
     // keep argv[0] stable so that usage text is comparable
     cmd.arg0("xt");
     cmd.env_clear();
